@@ -2,6 +2,7 @@ package g9mesh
 
 import (
 	"context"
+	"sync"
 	"sync/atomic"
 
 	"github.com/aperturerobotics/bifrost/link"
@@ -54,3 +55,23 @@ func (s *FakeMStream) GetPeerID() peer.ID           { return s.Peer }
 func (s *FakeMStream) GetLink() link.MountedLink    { return s.Lnk }
 
 var _ link.MountedStream = (*FakeMStream)(nil)
+
+// OpenGate is a harness-controlled gate for OpenMountedStream calls of fake
+// links (a transport that is slow to open / to abort an open): Wait blocks
+// until Open was called. A goroutine blocked at the gate is recognisable in a
+// goroutine snapshot by the frame g9mesh.(*OpenGate).Wait in state "chan receive".
+type OpenGate struct {
+	once sync.Once
+	ch   chan struct{}
+}
+
+// NewOpenGate returns a closed gate.
+func NewOpenGate() *OpenGate { return &OpenGate{ch: make(chan struct{})} }
+
+// Open opens the gate (idempotent).
+func (g *OpenGate) Open() { g.once.Do(func() { close(g.ch) }) }
+
+// Wait blocks until the gate is open.
+//
+//go:noinline
+func (g *OpenGate) Wait() { <-g.ch }
